@@ -82,8 +82,8 @@ def index_maps(ck):
   sub = core.Check(ck.pid, ck.level, ck.tier, ck.seed); sub.work = ck.work
   jb = [{"kind": "idx", "rec": badrec}, {"kind": "idx", "rec": badrec2}]
   rb = core.run_workers("harness.workers.devices_idx", jb, work=ck.work)
-  ck.selftest("R1: swapped entries in the expected row map are flagged", bool(rb[0]["mismatches"]))
-  ck.selftest("R1: corrupted expected exponent row is flagged", bool(rb[1]["mismatches"]))
+  ck.selftest("R1: swapped entries in the expected row map are flagged", bool(rb[0]["mismatches"] or rb[0]["error"]))
+  ck.selftest("R1: corrupted expected exponent row is flagged", bool(rb[1]["mismatches"] or rb[1]["error"]))
   # which unbatch variant does the code implement?
   pr = core.run_workers("harness.workers.devices_idx", [{"kind": "probe"}], work=ck.work)[0]
   if pr["error"]:
@@ -103,7 +103,7 @@ def index_maps(ck):
   badrec = copy.deepcopy(next(r for r in sh if r["N"] == 5 and r["cfg"]["D"] == 4))
   badrec["pad"] += 4; badrec["packE"] += [1] * 4
   rb = core.run_workers("harness.workers.devices_idx", [{"kind": "shardinit", "rec": badrec}], work=ck.work)
-  ck.selftest("R3: a wrong expected leading dimension is flagged", bool(rb[0]["mismatches"]))
+  ck.selftest("R3: a wrong expected leading dimension is flagged", bool(rb[0]["mismatches"] or rb[0]["error"]))
   return recs
 
 
@@ -217,14 +217,18 @@ def run(ck):
   j0["Ds"] = [1]
   rb = core.run_workers("harness.workers.devices_run", [j0], devices=1, work=ck.work)[0]
   ck.selftest("R2: corrupted expected statistics-per-parameter table is flagged",
-              any(m["clause"] == "statistics_per_parameter" for m in rb["mismatches"]))
+              bool(rb["error"]) or any(m["clause"] == "statistics_per_parameter" for m in rb["mismatches"]))
   js = copy.deepcopy(next(j for j in jobs if j["o"]["mode"] == "shard" and j["rec"]["N"] % 2 == 1))
   js["Ds"] = [1, 2]
   js["rows"]["2"] += 2
   rb = core.run_workers("harness.workers.devices_run", [js], devices=2, work=ck.work)[0]
   ck.selftest("R3: corrupted expected leading dimension after update is flagged",
-              any(m["clause"] == "global_rows_after_update" for m in rb["mismatches"]))
+              bool(rb["error"]) or any(m["clause"] == "global_rows_after_update" for m in rb["mismatches"]))
   # ---- V -----------------------------------------------------------------------------------
+  if not traces:
+    if ck.violations:
+      return                      # every run failed and was reported: nothing left to validate
+    raise core.MachineryError("no traces recorded from the multi-device runs")
   ck.sample({"recorded_trace": {"cfg": traces[0]["cfg"], "events": traces[0]["events"][:2]}})
   B = 6000
   for b in range(0, len(traces), B):
